@@ -158,6 +158,15 @@ Theorem C16_check_sound_live : forall fs e,
 Proof. exact ei_sound. Qed.
 Print Assumptions C16_check_sound_live.
 
+(* inside the recorded guard the model's observation is judged [known] (and agreeing) for every
+   input whose exception text has the transcribed shape: nothing else can hide there *)
+Theorem C16_check_known_live : forall fs e,
+  plain_exc e = false -> hint_of e <> None ->
+  let v := ei_verdict fs e (std_text (std_tb P fs e)) (model_ei fs e) in
+  fst (fst v) = true /\ snd v = true.
+Proof. exact ei_known. Qed.
+Print Assumptions C16_check_known_live.
+
 (* call stacks (no exception): TracebackInfo.from_frame(...).get_formatted() is the header line
    followed by what traceback.format_stack prints, for every list of frames *)
 Theorem C16_stack_format : forall fs,
